@@ -367,7 +367,9 @@ def to_comps(v: Value, k: Kind, default):
         if isinstance(v, VBool) and k is K_INT:
             from .smt import Ite
             return [Ite(v.t, I(1), I(0))]
-        assert hasattr(v, "t"), (v, k)
+        if not hasattr(v, "t"):
+            from .state import Unsupported
+            raise Unsupported(f"a value of kind {getattr(v, 'kind', v)!r} stored where {k!r} is declared")
         if v.t.sort != k.sort:
             raise TypeError(f"cannot store {v!r} as {k!r}")
         return [v.t]
